@@ -475,6 +475,8 @@ pub struct DeviceLayout {
     pub out_sms: Vec<(u8, u16, u16)>,
     pub dc: DcKind,
     pub sii8: bool,
+    /// `(PDO index, multiplier)` to hand to `set_oversampling` (lengths above already include it).
+    pub oversampling: Vec<(u16, u16)>,
 }
 
 impl DeviceLayout {
@@ -511,7 +513,7 @@ pub fn device_layout(v: &Value, position: usize) -> Result<DeviceLayout, String>
     let dc = dc_kind(get_str(v, "dc", "none"));
     let sii8 = get_bool(v, "sii8", false);
     if kind == "coupler" {
-        return Ok(DeviceLayout { desc, coe: false, in_sms: vec![], out_sms: vec![], dc, sii8 });
+        return Ok(DeviceLayout { desc, coe: false, in_sms: vec![], out_sms: vec![], dc, sii8, oversampling: vec![] });
     }
 
     let (def_out, def_in) = (2u8, 3u8);
@@ -560,6 +562,23 @@ pub fn device_layout(v: &Value, position: usize) -> Result<DeviceLayout, String>
     desc.rx_pdos = mk(&rx, 0x1600, 0x7000);
     desc.tx_pdos = mk(&tx, 0x1A00, 0x6000);
 
+    // "oversampling": [[pdo index or position ("rx0", "tx1"), multiplier], ..]
+    let oversampling: Vec<(u16, u16)> = get_array(v, "oversampling")
+        .iter()
+        .filter_map(|o| {
+            let a = o.as_array()?;
+            let mul = num(a.get(1)?)? as u16;
+            let idx = match a.first()? {
+                Value::String(s) => {
+                    let (list, base) = if let Some(n) = s.strip_prefix("rx") { (n, 0x1600u16) } else { (s.strip_prefix("tx")?, 0x1A00u16) };
+                    base + list.parse::<u16>().ok()?
+                }
+                other => num(other)? as u16,
+            };
+            Some((idx, mul))
+        })
+        .collect();
+
     // Sync managers and physical layout
     let packed = get_str(v, "sm_spacing", "spaced") == "packed";
     let mut next: u32 = 0x1100;
@@ -583,7 +602,14 @@ pub fn device_layout(v: &Value, position: usize) -> Result<DeviceLayout, String>
             });
             continue;
         }
-        let bits: u32 = if is_out { desc.rx_bits_for_sm(k8) } else { desc.tx_bits_for_sm(k8) };
+        let bits: u32 = (if is_out { &desc.rx_pdos } else { &desc.tx_pdos })
+            .iter()
+            .filter(|p| p.sm == k8)
+            .map(|p| {
+                let mul = oversampling.iter().find(|(i, _)| *i == p.index).map(|(_, m)| u32::from(*m)).unwrap_or(1);
+                p.bit_len() * mul
+            })
+            .sum();
         let len = bits.div_ceil(8).min(0x2000) as u16;
         if next + u32::from(len) > 0x9000 {
             return Err("process data does not fit into the simulated device RAM".into());
@@ -611,7 +637,15 @@ pub fn device_layout(v: &Value, position: usize) -> Result<DeviceLayout, String>
 
     // FMMU usage
     if coe {
-        desc.fmmu_usage = vec![fmmu_usage::OUTPUTS, fmmu_usage::INPUTS, fmmu_usage::SM_STATUS];
+        desc.fmmu_usage = if get_str(v, "fmmus", "single") == "per_sm" {
+            // one FMMU per process data sync manager, outputs first
+            let mut u = vec![fmmu_usage::OUTPUTS; out_sms.len().max(1)];
+            u.extend(std::iter::repeat_n(fmmu_usage::INPUTS, in_sms.len().max(1)));
+            u.push(fmmu_usage::SM_STATUS);
+            u
+        } else {
+            vec![fmmu_usage::OUTPUTS, fmmu_usage::INPUTS, fmmu_usage::SM_STATUS]
+        };
     } else {
         // ethercrab's EEPROM path uses FMMU[sync manager index]: describe them that way
         desc.fmmu_usage = desc
@@ -629,7 +663,7 @@ pub fn device_layout(v: &Value, position: usize) -> Result<DeviceLayout, String>
     } else {
         desc.fmmu_ex.clear();
     }
-    Ok(DeviceLayout { desc, coe, in_sms, out_sms, dc, sii8 })
+    Ok(DeviceLayout { desc, coe, in_sms, out_sms, dc, sii8, oversampling })
 }
 
 /// Turn a description into a simulated device (mailbox + CoE server with an object dictionary that
